@@ -93,6 +93,15 @@ def length_facts(F, f):
                             lb = 1
                     if lb is not None:
                         out.append(((bi, s), S, lb))
+        elif sw.kind == 'int' and len_source(sw.subject) is not None:
+            # `match s.len() { 4 => .., _ => .. }`: the arm of the value k implies len == k; with 0 listed, `_` implies len >= 1
+            S = len_source(sw.subject)
+            vals = [l for l in sw.labels.values() if isinstance(l, int)]
+            for s, lab in sw.labels.items():
+                if isinstance(lab, int):
+                    out.append(((bi, s), S, lab))
+                elif lab == 'else' and 0 in vals:
+                    out.append(((bi, s), S, 1))
         elif sw.kind == 'bool':
             e = strip(sw.subject)
             if e[0] == 'call' and e[1] in EMPTY_CALLS and e[2]:
